@@ -130,6 +130,8 @@ def run(rep, F, ctx):
         ok = bool(sites) and all(sdesc_operand(B, t['args'][2]).startswith('_clone_file(') for i, t in sites)
         rep.add('OWN-KEY', 'ownkey:_copy', '_copy stores a clone of the source data (_clone_file result) under the destination key', ok, '%s:%d' % (B.file, B.line),
                 '' if ok else '_copy stores %s' % [sdesc_operand(B, t['args'][2]) for i, t in sites])
+    import mustcall as _mc
+    _mc.handle_path(rep, F, cg)
     return engine.finish(
         rep, 'other', EXPLANATION,
         assumptions=['Rust ownership: a value of a type without sharing/interior-mutability components and without references has a unique owner',
